@@ -230,7 +230,8 @@ def cyclic_case(draw):
     return dict(part="cyclic", rot=draw(st.integers(0, 13)), q=draw(strat.quat()),
                 shift=[draw(strat.fl(-50.0, 50.0)) for _ in range(3)], start=draw(st.sampled_from([1, 1, -4, 100])),
                 hyd=draw(st.booleans()), linear=draw(st.one_of(st.none(), strat.chain(cid="L", nmin=2, nmax=4).map(lambda c: {k: v for k, v in c.items() if k != "extra"}))),
-                ff=draw(st.sampled_from(["AMBER", "CHARMM", "PARSE", "TYL06", "SWANSON"])), cid=draw(st.sampled_from(["A", "C", "z"])))  # fmt: skip
+                ff=draw(st.sampled_from(["AMBER", "CHARMM", "PARSE", "TYL06", "SWANSON"])), cid=draw(st.sampled_from(["A", "C", "z"])),
+                nonstd=draw(st.sampled_from([None, None, "first", "last", "middle"])))  # fmt: skip  (a residue without definition, e.g. SAR / DAL)
 
 
 def check_cyclic(case):
@@ -248,6 +249,7 @@ def check_cyclic(case):
     lines = []
     serial = 1
     resnames = []
+    jn = {None: -1, "first": 0, "last": n - 1, "middle": n // 2}[case.get("nonstd")]
     for j, k in enumerate(order):
         for a in recs:
             if (a["chain"], a["seq"], a["icode"]) != k:
@@ -255,6 +257,12 @@ def check_cyclic(case):
             if not case["hyd"] and not topo.heavy(a["name"]):
                 continue
             xyz = R @ (np.array([a["x"], a["y"], a["z"]]) - cen) + np.array(case["shift"])
+            if j == jn:
+                # a ring member pdb2pqr has no definition for: backbone only, HETATM records
+                if a["name"] in ("N", "CA", "C", "O"):
+                    lines.append(build.fmt_atom(serial, a["name"], "SAR", case["cid"], case["start"] + j, " ", xyz, rec="HETATM"))
+                    serial += 1
+                continue
             lines.append(build.fmt_atom(serial, a["name"], a["resn"], case["cid"], case["start"] + j, " ", xyz))
             serial += 1
         resnames.append(next(a["resn"] for a in recs if (a["chain"], a["seq"], a["icode"]) == k))
@@ -267,7 +275,7 @@ def check_cyclic(case):
         nlin = len(ch["seq"])
     lines.append("END")
     r = pipeline.run("\n".join(lines) + "\n", [f"--ff={case['ff']}", "--keep-chain"])
-    res.label(f"ff={case['ff']}", f"rot={case['rot'] % n != 0}", "with-linear" if nlin else "alone")
+    res.label(f"ff={case['ff']}", f"rot={case['rot'] % n != 0}", "with-linear" if nlin else "alone", f"undefined-residue={case.get('nonstd')}")
     if not r.ok:
         res.bad("C02:cyclic:run-failed", f"cyclic peptide run failed: {r.exc_text[:120]}")
         return res
@@ -277,8 +285,9 @@ def check_cyclic(case):
     side = {"ARG": 1, "LYS": 1, "ASP": -1, "GLU": -1}
     for x in cyc:
         ffname = getattr(x, "ffname", "")
-        if x.is_n_term or x.is_c_term or ffname.startswith(("NEUTRAL", "N", "C")) and ffname not in ("CYS", "CYX", "CYM", "ASN"):
-            if ffname[1:] in topo.RES or ffname[1:] in topo.BASE or x.is_n_term or x.is_c_term:
+        nterm, cterm = getattr(x, "is_n_term", 0), getattr(x, "is_c_term", 0)
+        if nterm or cterm or ffname.startswith(("NEUTRAL", "N", "C")) and ffname not in ("CYS", "CYX", "CYM", "ASN"):
+            if ffname[1:] in topo.RES or ffname[1:] in topo.BASE or nterm or cterm:
                 res.bad("C02:cyclic:terminus-applied", f"residue {x} of the cyclic chain got terminal state {ffname!r} "
                         f"(rotation {case['rot'] % n})")  # fmt: skip
                 break
@@ -290,7 +299,9 @@ def check_cyclic(case):
     if not any(id(a) in miss for x in cyc for a in x.atoms):
         tot = sum(x.charge for x in cyc)
         exp = sum(side.get(x.name, 0) for x in cyc) + sum(1 for x in cyc if getattr(x, "ffname", "") == "HIP")
-        if abs(tot - exp) > 1e-3:
+        if jn >= 0:
+            exp = None  # (never reached: the undefined residue's atoms are unassigned)
+        if exp is not None and abs(tot - exp) > 1e-3:
             res.bad("C02:cyclic:charge", f"cyclic chain charge {tot:+.4f}, side chains sum to {exp:+d}")
     res.nontrivial = True
     return res
